@@ -1091,6 +1091,10 @@ class Gen:
             if CANON[0] and op in ("==", "!=") and re.fullmatch(r"\d+|\(u_max w\)", va) and not re.fullmatch(r"\d+|\(u_max w\)", vb):
                 # `0 != x` is `x != 0`: a literal / `$Digit::MAX` goes to the right (pure values; `pre` keeps the source order)
                 va, vb = vb, va
+            if CANON[0] and op == "<=" and re.fullmatch(r"\d+", va) and int(va) > 0 and not re.fullmatch(r"\d+", vb):
+                op, va = "<", str(int(va) - 1)             # on integers `k <= x` is `k-1 < x` (`i >= 1` is `i > 0`)
+            elif CANON[0] and op == "<=" and re.fullmatch(r"\d+", vb) and not re.fullmatch(r"\d+", va):
+                op, vb = "<", str(int(vb) + 1)             # `x <= k` is `x < k+1`
             f = {"<": "(%s <? %s)", "<=": "(%s <=? %s)", ">": "(%s >? %s)", ">=": "(%s >=? %s)", "==": "(%s =? %s)", "!=": "(negb (%s =? %s))"}[op]
             return pre, f % (va, vb), "bool"
         if op in ("<<", ">>"):
@@ -1127,6 +1131,8 @@ class Gen:
             return pre, "(%s w %s %s)" % (f, va, vb), "Digit"
         if t in ("usize", "ExpType"):
             if op == "+":
+                if CANON[0] and re.fullmatch(r"\d+", va) and not re.fullmatch(r"\d+", vb):
+                    va, vb = vb, va                        # `1 + i` is `i + 1` (unbounded Z, pure values)
                 return pre, "(%s + %s)" % (va, vb), t
             if op == "-":
                 x = self.tmp()
